@@ -555,6 +555,31 @@ def gen_c06(tier, seed):
                     for hi, hpre in enumerate(hists):
                         lines.append(PN.line(f"{sid}-h{hi}", p, ["new"] + pre + hpre + ops, sched=sched_for(rnd)))
                         stats["windows"] += 1
+        # (wave 14) two partial updates back to back, of DIFFERENT shapes: a driver that skips "redundant"
+        # window registers (full-width stripe, whole panel, same column range) inherits them from the
+        # previous window
+        W8, H = p.w8, p.h
+        shapes = [(8 * (W8 // 32), H // 3, 8 * max(1, W8 // 16), max(1, H // 4)),   # narrow, interior
+                  (0, H // 2, W8, max(1, H // 5)),                                   # full-width stripe
+                  (8 * (W8 // 16), 0, 8 * max(1, W8 // 32), H),                      # full-height stripe
+                  (0, 0, W8, H),                                                     # whole panel
+                  (0, 1, 8, 2), (W8 - 8, H - 2, 8, 2)]                               # corners
+        def mk(e, x, y, w, h, tag):
+            m = w // 8 * h
+            if e == "pnew":
+                return [f"pold,r:5:{m},{x},{y},{w},{h}", f"pnew,{tag}:{m},{x},{y},{w},{h}"]
+            if e == "pclear":
+                return [f"pclear,{x},{y},{w},{h}"]
+            if e == "part2":
+                return [f"part2,{tag}:{2 * m},{x},{y},{w},{h}"]
+            return [f"{e},{tag}:{m},{x},{y},{w},{h}"]
+        pairs = [(a, b) for a in shapes for b in shapes if a != b]
+        if tier == "quick" and big:
+            pairs = [(a, b) for (a, b) in pairs if shapes[0] in (a, b)]
+        for e in ents:
+            for j, (a, b) in enumerate(pairs):
+                lines.append(PN.line(f"c06-{p.name}-{e}-bb{j}", p, ["new"] + pre + mk(e, *a, "r:3") + mk(e, *b, "pos"), sched=sched_for(rnd)))
+                stats["windows"] += 1
     # the 12.48in driver's partial writes: grid / seam / edge windows and the exact sub-display rectangles
     big = big_lines("c06", tier, seed, "wq")
     lines += big
@@ -695,6 +720,24 @@ def gen_c10(tier, seed):
 
 def gen_c18(tier, seed):
     out = all_ops_lines("c18", tier, seed, feats=("v3", "v2", "alt"))
+    # (wave 14) every ordered pair of units: a block may be incomplete / a geometry value wrong only on
+    # the path an earlier call selects (mode flags, partial-refresh flags, restore paths)
+    rnd = random.Random(seed * 7919 + 1818)
+    for feat in ("v3", "v2", "alt"):
+        for p in each_panel(feat):
+            if feat == "v2" and p.name != "epd2in13_v2":
+                continue
+            if feat == "alt" and p.name not in ("epd1in54", "epd2in9"):
+                continue
+            big = p.n > 20000
+            A = alphabet(p, rnd, small=True) + (whole_panel_partials(p, rnd) if not big else [])
+            pairs = [(a, b) for a in A for b in A]
+            lim = (40 if big else len(pairs)) if tier == "quick" else len(pairs)
+            if len(pairs) > lim:
+                setters = [(a, b) for (a, b) in pairs if a[0].split(",")[0] in ("lut", "refresh", "part", "pold", "part2", "pachro")]
+                pairs = rnd.sample(pairs, lim) + (setters if len(setters) <= 120 else rnd.sample(setters, 120))
+            for j, (a, b) in enumerate(pairs):
+                out[feat].append(PN.line(f"c18-{feat}-{p.name}-pp{j}", p, ["new"] + a + b, sched=sched_for(rnd)))
     # the 12.48in driver: every public call, LUT tables of every length class, windows, full frames, histories
     big = [l.replace("id=c10-big-", "id=c18-big-") for l in gen_c10(tier, seed)["v3"] if "id=c10-big-" in l and "bus=fifo" not in l]
     big += [l.replace("id=c02-big-", "id=c18-bigh-") for l in big_c02_lines(tier, seed)[:40]]
